@@ -73,13 +73,14 @@ package db
 //@ (define-fun jr_sector ((a (Array (_ BitVec 64) (_ BitVec 8)))) (_ BitVec 64) ((_ sign_extend 32) (be32 a #x0000000000000014)))
 //@ (define-fun jrnl_hot ((a (Array (_ BitVec 64) (_ BitVec 8))) (n (_ BitVec 64))) Bool (and (bvsge n #x000000000000001c) (= (select a #x0000000000000000) #xd9) (= (select a #x0000000000000001) #xd5) (= (select a #x0000000000000002) #x05) (= (select a #x0000000000000003) #xf9) (= (select a #x0000000000000004) #x20) (= (select a #x0000000000000005) #xa1) (= (select a #x0000000000000006) #x63) (= (select a #x0000000000000007) #xd7) (bvsge (jr_sector a) #x0000000000000200) (bvsle (jr_sector a) #x0000000000010000) (bvsge n (jr_sector a))))
 
+// environment: a file length that fits the model, and the value of the package constant journalMagic
+//@ macro JR_ENV() = 0 <= jr_len && jr_len <= 1099511627776 && journalMagic[0] == 217 && journalMagic[1] == 213 && journalMagic[2] == 5 && journalMagic[3] == 249 && journalMagic[4] == 32 && journalMagic[5] == 161 && journalMagic[6] == 99 && journalMagic[7] == 215
+
 //@ func db.validJournal
 //@   props C09 C05
 //@   modifies alloc M:bv8 jr_pos
-//@   requires 0 <= jr_len && jr_len <= 1099511627776
-//@   requires journalMagic[0] == 217 && journalMagic[1] == 213 && journalMagic[2] == 5 && journalMagic[3] == 249 && journalMagic[4] == 32 && journalMagic[5] == 161 && journalMagic[6] == 99 && journalMagic[7] == 215
 //@   ensures [absent] !jr_exists ==> !r0 && err == nil
-//@   ensures [decision] jr_exists ==> err == nil && (r0 <==> jrnl_hot(jr_bytes, jr_len))
+//@   ensures [decision] JR_ENV() && jr_exists ==> err == nil && (r0 <==> jrnl_hot(jr_bytes, jr_len))
 
 //@ func (*db.filePager).RLock
 //@   props C06 C07
